@@ -286,6 +286,8 @@ def scalar_isnan(e):
 
 def elementwise(it, fn, *args):
     """apply scalar function to aligned arrays / scalars"""
+    if any(isinstance(a, Opaque) or getattr(a, "opaque_like", False) for a in args):
+        return Opaque("elementwise(unknown)")
     arrs = [a for a in args if isinstance(a, (Arr, Series))]
     arrs = [a.arr() if isinstance(a, Series) else a for a in arrs]
     if not arrs:
